@@ -137,6 +137,12 @@ def run_case(I, fdef, qual, recv_kind, method, build):
         return
     equiv_full(I, got[1], want[1], twin, qual)
     for a, s in zip(body_args, snaps): phys_preserved(I, a, s, qual)
+    # in-place effects on the operands: the unit each operand is expressed in afterwards is the one the contract says
+    # (to() converts in place: a conversion that is skipped leaves the old unit tag, which later bare-magnitude reads depend on)
+    for a, sa in zip(body_args, spec_args):
+        if isinstance(a, Expl) and isinstance(sa, Expl) and a.kind in ("eq", "ehq") and sa.kind == a.kind:
+            I.eng.oblige(f"{qual}/operand unit afterwards: dimension", a.value.unit.dim == sa.value.unit.dim, kind="frame")
+            I.eng.oblige(f"{qual}/operand unit afterwards: conversion factor", rv(a.value.unit.factor) == rv(sa.value.unit.factor), kind="frame")
 
 
 def class_methods(kind):
@@ -201,6 +207,12 @@ def cases_for(kind, method):
         lit = lambda nm, dim, f: (lambda: [Unit(dim, z3.RealVal(f), nm)])
         out.append(("unit of same dimension", mk_unary(lit("g", D_A, "1/1000"), lit("g", D_A, "1/1000"))))
         out.append(("unit of other dimension", mk_unary(lit("hour", D_B, 3600), lit("hour", D_B, 3600))))
+        def ratio_case():
+            # a dimension-less ratio unit such as GB/MB (factor 1000, or anything else) converted to plain `dimensionless`
+            s1 = mk_operand(kind, "a", DIMLESS, attached=("objA", "attrA")); s2 = mk_operand(kind, "a", DIMLESS, attached=("objA", "attrA"))
+            t1 = Unit(DIMLESS, z3.RealVal(1), "dimensionless"); t2 = Unit(DIMLESS, z3.RealVal(1), "dimensionless")
+            return [s1, t1], [s2, t2], {id(s2): s1}
+        out.append(("dimension-less ratio unit to plain dimensionless", ratio_case))
     elif method == "__round__":
         out.append(("4 decimals", mk_unary(lambda: [PyNum(z3.IntVal(4))], lambda: [PyNum(z3.IntVal(4))])))
     elif method == "set_label":
